@@ -30,7 +30,7 @@ func zzContents(maxLen int) []string {
 func TestVerifBounded(t *testing.T) {
 	maxLen := 6
 	if os.Getenv("VERIF_TIER") == "thorough" {
-		maxLen = 9
+		maxLen = 13
 	}
 	cases := 0
 	contents := zzContents(maxLen)
